@@ -111,25 +111,35 @@ def conditions(tier):
                 conds.append(Cond('active_%s_%s_n%d' % (rs.replace('-', ''), sc.replace('-', ''), n), 't: str',
                                   set_pre(n, ACTIVE + REPS), 'body_inert(t, %r, %r, %r)' % (rs, sc, 'keep'),
                                   timeout=T, smoke=SM, twin=False))
-            if not quick or (rs, sc) in (('defaults', 'braces'), ('unicode-xml', 'braces-after-macro')):
+            if not quick or (rs, sc) in (('defaults', 'braces'),):
                 for c0 in ACTIVE:
                     pre = ['len(t) == 3', 't[0] == chr(%d)' % ord(c0)] + \
                         ['any(t[%d] == c for c in %r)' % (i, ACTIVE + 'a ') for i in (1, 2)]
                     conds.append(Cond('active_%s_%s_n3_%d' % (rs.replace('-', ''), sc.replace('-', ''), ord(c0)), 't: str',
                                       pre, 'body_inert(t, %r, %r, %r)' % (rs, sc, 'keep'), timeout=T, twin=False, cost=2))
-    # (B) one wildcard character over all Unicode (both tables), alone and between pinned ASCII neighbours
-    for rs in ('defaults', 'unicode-xml'):
-        for pol in (['replace', 'fail'] if quick else ['replace', 'ignore', 'fail', 'keep']):
-            for sc in (['braces'] if quick else SCHEMES):
-                for tag, sk in [('alone', '?')] + ([('a_r', '?a'), ('bs_l', '\\?'), ('br', '{?}'), ('sp', '? x'), ('pc', '?%')]
-                                                   if pol != 'keep' else []):
-                    if quick and tag in ('sp', 'pc') and not (rs == 'defaults' and pol == 'replace'):
-                        continue
-                    pre = ['len(t) == %d' % len(sk)] + ['t[%d] == chr(%d)' % (i, ord(ch)) for i, ch in enumerate(sk) if ch != '?']
-                    conds.append(Cond('wild_%s_%s_%s_%s' % (rs.replace('-', ''), sc.replace('-', ''), pol, tag), 't: str',
-                                      pre, 'body_inert(t, %r, %r, %r)' % (rs, sc, pol), timeout=T, cost=3, twin=False,
-                                      smoke=[dict(t=sk.replace('?', c)) for c in ('é', '\x7f', '\U0001d400', '́', 'ά',
-                                                                                 '\x01', '￾')]))
+    # (B) one wildcard character over all Unicode (both tables), alone and between pinned ASCII neighbours; the code-point
+    # range is cut into parts (disjoint, covering) so that 16 cores share one table
+    def parts(rs, n):
+        keys = sorted(TABLES[rs].keys())
+        cuts = [keys[(len(keys) * k) // n] for k in range(1, n)]
+        return list(zip([0] + cuts, cuts + [0x110000]))
+    if quick:
+        wild = [('defaults', 'braces', 'replace', 'alone', '?'), ('defaults', 'braces', 'replace', 'a_r', '?a'),
+                ('defaults', 'braces-after-macro', 'fail', 'bs_l', '\\?'), ('unicode-xml', 'braces', 'replace', 'alone', '?'),
+                ('unicode-xml', 'braces-after-macro', 'fail', 'br', '{?}')]
+    else:
+        wild = [(rs, sc, pol, tag, sk) for rs in ('defaults', 'unicode-xml') for pol in ('replace', 'ignore', 'fail', 'keep')
+                for sc in SCHEMES for tag, sk in ([('alone', '?')] + ([('a_r', '?a'), ('bs_l', '\\?'), ('br', '{?}'), ('sp', '? x'),
+                                                                         ('pc', '?%')] if pol != 'keep' else []))]
+    for rs, sc, pol, tag, sk in wild:
+        i = sk.index('?')
+        for lo, hi in parts(rs, 4 if quick else 8):
+            pre = ['len(t) == %d' % len(sk)] + ['t[%d] == chr(%d)' % (j, ord(ch)) for j, ch in enumerate(sk) if ch != '?'] + \
+                ['%d <= ord(t[%d]) < %d' % (lo, i, hi)]
+            conds.append(Cond('wild_%s_%s_%s_%s_%x' % (rs.replace('-', ''), sc.replace('-', ''), pol, tag, lo), 't: str',
+                              pre, 'body_inert(t, %r, %r, %r)' % (rs, sc, pol), timeout=T, cost=3, twin=False,
+                              smoke=[dict(t=sk.replace('?', c)) for c in ('\xe9', '\x7f', '\U0001d400', '\u03ac', '\x01', '\ufffe')
+                                     if lo <= ord(c) < hi]))
     # unihex: hex formatting realises the code point; small ranges incl. control, combining, astral, unassigned
     for rs in ('defaults',) if quick else ('defaults', 'unicode-xml'):
         for lo, hi in ((0, 32), (127, 140), (0x300, 0x308), (0x1d400, 0x1d404), (0xfffe, 0x10001)):
